@@ -525,6 +525,10 @@ func (f *Frame) unop(x *ssa.UnOp, st *State, g Term) Val {
 		r := vc.load(st, v, t)
 		r.Typ = t
 		vc.assumeWF(r)
+		if gl, ok := x.X.(*ssa.Global); ok && vc.eng.nonNilGlobal[gl] {
+			// assigned once, in the package initialiser, with a non-nil value
+			vc.assume(Not(vc.isNil(r)), "package-level variable "+gl.Name()+" is initialised once with a non-nil value")
+		}
 		return r
 	case token.NOT:
 		return Val{K: KBool, T: Not(v.T), Typ: t}
